@@ -71,11 +71,19 @@ def seed_dataset(c, which):
         c.cmd("ZADD", "z2", *[x for i in range(70) for x in (str(i), "m%d" % i)])
 
 
-def wait_saves_done(c, timeout=30.0):
+def saves_started(c):
+    return c.cmd("VERIF", "RDB", "SAVES")[0]
+
+
+def wait_saves_done(c, timeout=30.0, started_before=None):
+    """All saves finished. BGSAVE answers before its thread has counted itself as
+    started: pass the started-counter read before BGSAVE was sent to wait for that
+    save too (otherwise a save that has not begun yet looks like 'all done')."""
     end = time.monotonic() + timeout
     while time.monotonic() < end:
         st = c.cmd("VERIF", "RDB", "SAVES")
-        if st[0] == st[1] and c.cmd("VERIF", "RDB", "INPROGRESS") == 0:
+        if st[0] == st[1] and (started_before is None or st[0] > started_before) and \
+                c.cmd("VERIF", "RDB", "INPROGRESS") == 0:
             return True
         time.sleep(0.002)
     return False
@@ -109,11 +117,12 @@ def fault_points(shard, nshards, binary, tier):
                         r = c.cmd("SAVE")
                         failed_reported = isinstance(r, Err)
                     else:
+                        started0 = saves_started(c)
                         r = c.cmd("BGSAVE")
                         if isinstance(r, Err):
                             res.violation("failpoint/bgsave-refused", "BGSAVE refused although none is in progress: %r (step %d)" % (r, n))
                             continue
-                        if not wait_saves_done(c):
+                        if not wait_saves_done(c, started_before=started0):
                             res.violation("failpoint/bgsave-stuck", "after an injected failure at step %d the background save never finished / the in-progress flag stayed set" % n)
                             srv.restart()
                             c = srv.client(timeout=30)
@@ -266,6 +275,7 @@ def directed_holds(shard, nshards, binary, tier):
                 c.cmd("EXPIRE", K, "50000")
             timeline = [norm(key_state(c, K))]
             c.cmd("VERIF", "RDB", "HOLD", phase, K)
+            started0 = saves_started(c)
             r = c.cmd("BGSAVE")
             if isinstance(r, Err):
                 res.inconclusive.append("BGSAVE refused: %r" % (r,))
@@ -281,7 +291,7 @@ def directed_holds(shard, nshards, binary, tier):
             if not parked:
                 res.inconclusive.append("save thread never parked at %s for %s" % (phase, typ))
                 c.cmd("VERIF", "RDB", "RELEASE")
-                wait_saves_done(c)
+                wait_saves_done(c, started_before=started0)
                 continue
             # client script on K while the save thread is parked
             sub = lambda a: [K if x == "K" else x for x in a]
@@ -319,7 +329,7 @@ def directed_holds(shard, nshards, binary, tier):
             if act == "save-during-bgsave":
                 save_reply = c.cmd("SAVE")
             c.cmd("VERIF", "RDB", "RELEASE")
-            if not wait_saves_done(c):
+            if not wait_saves_done(c, started_before=started0):
                 res.violation("pair/save-never-finished", "BGSAVE parked at %s for a %s key and released never finished" % (phase, typ))
                 srv.restart()
                 c = srv.client(timeout=30)
@@ -348,7 +358,8 @@ def directed_holds(shard, nshards, binary, tier):
                                   phase, typ, resp.show(steps, 30), resp.show(K), resp.show(list(got), 40), resp.show([list(t) for t in timeline], 40)))
             for bk, want in ((b"bystander", ("string", b"same", False)), (b"bystander:ttl", ("string", b"same", True))):
                 if norm(loaded.get((0, bk), ("none", None, False))) != want:
-                    res.violation("pair/bystander/" + sig_tail, "untouched key %s restored as %s" % (resp.show(bk), resp.show(list(loaded.get((0, bk), ("none",))), 40)))
+                    res.violation("pair/bystander/" + sig_tail, "untouched key %s restored as %s; dump (%d bytes) loads to keys %s; live server has %s; loader log: %s" % (
+                        resp.show(bk), resp.show(list(loaded.get((0, bk), ("none",))), 40), len(dump), resp.show(sorted(loaded)), resp.show(c.cmd("KEYS", "*")), log[-300:]))
             if act == "save-during-bgsave" and isinstance(save_reply, Err):
                 res.count("save_during_bgsave_refused")
         if shard == 0:
@@ -407,11 +418,12 @@ def stress(wseed, binary, budget_s):
         nsaves = 0
         while time.time() < t_end:
             s0 = time.monotonic()
+            started0 = saves_started(ctl)
             r = ctl.cmd("BGSAVE")
             if isinstance(r, Err):
                 time.sleep(0.01)
                 continue
-            if not wait_saves_done(ctl, 60):
+            if not wait_saves_done(ctl, 60, started_before=started0):
                 res.violation("stress/save-stuck", "BGSAVE under write load never finished")
                 break
             s1 = time.monotonic()
@@ -443,6 +455,17 @@ def stress(wseed, binary, budget_s):
                     nxt_ack = versions[i + 1][3] if i + 1 < len(versions) else float("inf")
                     if t0 <= s1 and nxt_ack >= s0:
                         admissible.append((val, ttl))
+                        if val[0] == "hash":
+                            # written as MULTI/DEL/HSET/EXPIRE/EXEC: EXEC is indivisible for other
+                            # clients (C07), but the save thread is not a client and the statement
+                            # only asks for a pair the key had at one instant - between HSET and
+                            # EXPIRE the key really holds this value without a TTL
+                            admissible.append((val, False))
+                        if val[0] == "zset":
+                            # a multi-member ZADD takes the shard lock once per member, so the save
+                            # thread can find the set after the first member only: a value the key
+                            # did hold at that instant (observed on the pinned tree; DESIGN.md 7/C10)
+                            admissible.append((("zset", val[1][:1]), ttl))
                 checked += 1
                 if got[0] == "none":
                     # the statement constrains the keys that ARE in the dump; a key the save thread found
